@@ -10,17 +10,18 @@ PROPERTY_ID = "C32"
 LEVEL = "exploration"
 EXHAUSTIVE = True
 RULE = ("Exhaustive: every listed one-string function on all 259 strings of length 0..3 over {a, b, space, comma, é, "
-        "☃}; every two-string function on all pairs of strings of length 0..2 (1 849 pairs; empty needles go to the "
-        "termination sub-check); substring on all strings of length <= 3 x from,to in -1..4 and 99; list functions on "
+        "☃}; every two-string function on all pairs of strings of length 0..2 (1 849 pairs; with an empty needle "
+        "only contains / starts_with / ends_with / strip_prefix / strip_suffix / index_of are compared, the rest go to "
+        "the termination sub-check); substring on all strings of length <= 3 x from,to in -1..4 and 99; list functions on "
         "all Int lists of length 0..3 over {-1, 0, 2} with index arguments in -4..4; min/max/range on a boundary set. "
         "Random: strings up to 40 characters and lists up to 6. Oracle: a reference implementation written from the "
         "doc comments and the prelude's own tests (character, not byte, indices; substring errors when from < 0 or "
         "from > to and clamps `to`; lines drops one final newline; slice with a negative end counts from the back). "
-        "Termination: split / replace / split_once / index_of / contains / starts_with / ends_with / strip_* with an "
-        "EMPTY needle are unspecified as to their result but must return within the watchdog (5 s, re-run at 50 s). "
+        "Termination: every two-string function with an EMPTY needle must return within the watchdog (5 s, re-run at "
+        "50 s); the results of split / split_once / replace / join with an empty needle are not asserted. "
         "Non-trivial = an argument is empty, multi-byte, or at an index boundary; distinct = distinct call.")
-ASSUMPTIONS = ["the reference implementation below is the specification of record; results for an empty needle are "
-               "not asserted, only termination"]
+ASSUMPTIONS = ["the reference implementation below is the specification of record; results of split / split_once / "
+               "replace / join for an empty needle are not asserted, only termination"]
 MANIFEST = dict(
     category="exploration",
     technique="exhaustive small-scope enumeration + random arguments against a reference implementation; watchdog "
@@ -125,6 +126,11 @@ TWO_STRING = {
     "strip_suffix": lambda s, n: s[:len(s) - len(n)] if (n and s.endswith(n)) else s,
     "index_of": m_index_of,
 }
+
+
+# with an empty needle these have exactly one defensible answer: every string contains / starts with / ends with
+# the empty string, stripping it removes nothing, and its first index is 0 (also in the empty string)
+FORCED_EMPTY = ["contains", "starts_with", "ends_with", "strip_prefix", "strip_suffix", "index_of"]
 
 
 def strings(maxlen):
@@ -251,6 +257,8 @@ def enum_batches(tier):
     for s in strings(2):
         for n in strings(2):
             if n == "":
+                # results with an empty needle are compared only where they are forced (see RULE)
+                batch += enc([(f"{gs(s)}.{f}(\"\")", TWO_STRING[f](s, "")) for f in FORCED_EMPTY])
                 continue
             batch += enc(calls_two_string(s, n))
             if len(batch) >= 150:
